@@ -51,7 +51,14 @@ func TestC19(t *testing.T) {
 		"payload segment of a token handed over as Bearer header, query parameter, form body parameter and JSON body member to the jwt and oauth2_introspection authenticators, as request body per content type " +
 		"(JSON, YAML, form), and as / inside the document of every remote endpoint (alone, as additional member, in place of a member). A second kind of rule lane runs against a file_system provider with " +
 		"env_vars_enabled in a process with a few environment variables: every expansion form of drone/envsubst (plain, case, length, defaults, replace, trim, substring with position / length at and beyond the " +
-		"edges of the value, negative, oversized, non-numeric), unfinished expressions and every truncation inside an expression, once in the rule id and - where the expansion is predictable - inside the probed route. Each file " +
+		"edges of the value, negative, oversized, non-numeric), unfinished expressions and every truncation inside an expression, once in the rule id and - where the expansion is predictable - inside the probed route. " +
+		"Short-lived files and rename patterns in the watched rule directory (lane rules-churn): files created and removed / moved away at once, temporary files renamed into place, atomic saves of a valid and of an invalid " +
+		"version over the mutated rule file, an editor's probe file + backup save, hard links, dangling / looping / file / directory symlinks, the ..data_tmp -> ..data swap of a config map volume, sub-directories that come " +
+		"and go - each once and in a burst without waiting, plus a mixed burst; afterwards the sentinel must be loaded, untouched rule sets must still answer and an invalid version must leave the previous one in effect. " +
+		"Matcher expressions at the edge of the glob / regular expression syntax as `hosts` and `path_params` values (lane rules-matchers): once such a rule set is in effect, harmless requests are sent through the " +
+		"matchers on the HTTP decision service and as envoy CheckRequests to a second, gRPC instance that loads the same file. Key store lanes: after every reload attempt the key set published on the management " +
+		"endpoint (/.well-known/jwks) and what the reloading component itself hands out (Keys() / Certificates() of the listener registered with the secrets watcher) are compared with the state before: a rejected " +
+		"reload - also one rejected late, by the signer, because of the certificate's key usage - must leave both untouched. Each file " +
 		"step is one system call = one file event = one exact content, journaled before it is applied. A case is non-trivial if heimdall demonstrably consumed the input (logged reload " +
 		"attempt, processed rule event proven by a later sentinel rule file, remote endpoint asked, request answered).")
 	r.Assume("the trust store is only read when a mechanism is created (this tree has no trust store hot reload): it is enumerated through authenticators.CreatePrototype",
@@ -67,7 +74,12 @@ func TestC19(t *testing.T) {
 		"how long heimdall may take for a document of several MB is not part of the statement: a depth- or size-extreme input that is not answered within the harness' patience is recorded "+
 			"(deep_documents_not_answered_within_patience, skipped_after_repeated_crash), larger documents for the same spot are skipped, and no verdict is derived; only the death of the process, a stopped watcher, "+
 			"lost state or a non-error status for a forged token are",
-		"the environment of a process is set by its operator: values of variables are not hostile input, the expressions in rule files are")
+		"the environment of a process is set by its operator: values of variables are not hostile input, the expressions in rule files are",
+		"a recovered panic while a request is evaluated against a matcher expression (HTTP 500 / gRPC Internal) is an error response in the sense of the statement: recorded (recovered_panics_answered_with_error_response, notes), no verdict",
+		"files that appear next to the rule files are not judged as rule sets (whether a temporary file was loaded for a moment depends on timing); judged are the life of the process, the sentinel, the rule sets of "+
+			"untouched files and - for a rule file replaced by rename - the same rules as for a rule file rewritten in place. A rule file that is moved away and written anew (editor backup save) may be unloaded in between",
+		"Keys() / Certificates() of the components that reload a key store are read in-process through the listener table of the secrets watcher (reflection, as for the Errors channel): in this tree the "+
+			"http_message_signatures strategy is not added to the key holder registry, so its keys are not visible on the management endpoint")
 
 	g := &gen{corpus: map[string][]byte{}, rng: r.Stream("c19-inputs"), thorough: r.Thorough()}
 	bases := g.buildKeyStoreCorpus()
@@ -89,6 +101,7 @@ func TestC19(t *testing.T) {
 	lanes = append(lanes, lane{name: "remote", inputs: g.remoteLane()})
 	lanes = append(lanes, lane{name: "request", inputs: g.requestLane()})
 	lanes = append(lanes, g.rulesEnvLane(), g.remoteDeepLane())
+	lanes = append(lanes, g.rulesChurnLane(), g.rulesMatcherLane())
 	lanes = append(lanes, g.requestDeepLanes()...)
 	// the lanes that take longest start first (the generation order above fixes the inputs, not the schedule)
 	sort.SliceStable(lanes, func(i, j int) bool { return laneRank(lanes[i].name) < laneRank(lanes[j].name) })
@@ -189,6 +202,9 @@ func TestC19(t *testing.T) {
 	r.Require("env_expressions_observed_expanded_in_a_served_route", r.Counter("env_expressions_observed_expanded_in_a_served_route"), 20)
 	r.Require("deep_documents_handed_over_request", r.Counter("deep_documents_handed_over_"+kRequest), int64(r.Pick(40, 100)))
 	r.Require("deep_documents_handed_over_remote", r.Counter("deep_documents_handed_over_"+kRemote), int64(r.Pick(60, 150)))
+	r.Require("rule_directory_file_operations", r.Counter("rule_directory_file_operations"), int64(r.Pick(1000, 5000)))
+	r.Require("requests_answered_through_edge_matcher_expressions", r.Counter("requests_answered_through_edge_matcher_expressions"), 200)
+	r.Require("offered_keys_and_certificates_confirmed_after_rejected_reload", r.Counter("offered_keys_and_certificates_confirmed_after_rejected_reload"), int64(r.Pick(100, 500)))
 	r.Require("children_spawned", int64(mon.spawned), int64(len(lanes)))
 	r.End()
 }
@@ -382,6 +398,16 @@ func (m *monitor) account(res *inResult, inputs []inputSpec) (violated []string)
 	r.Count("liveness_probes_answered", res.Alive)
 	r.Count("rule_files_judged_after_silent_unload_or_replacement", res.ShapeChecks)
 	r.Count("watcher_errors_injected", res.WatcherErrors)
+	r.Count("published_key_set_confirmed_after_rejected_reload", res.PubChecks)
+	if res.PubChecks > 0 {
+		r.Count("published_key_set_confirmed_after_rejected_reload_"+res.Kind, res.PubChecks)
+	}
+	r.Count("offered_keys_and_certificates_confirmed_after_rejected_reload", res.HeldChecks)
+	if res.HeldChecks > 0 {
+		r.Count("offered_keys_and_certificates_confirmed_after_rejected_reload_"+res.Kind, res.HeldChecks)
+	}
+	r.Count("rule_directory_file_operations", res.Churn)
+	r.Count("requests_answered_through_edge_matcher_expressions", res.Matched)
 	r.Count("env_expressions_observed_expanded_in_a_served_route", res.Expanded)
 	if res.Deep > 0 {
 		r.Count("deep_documents_handed_over_"+res.Kind, res.Deep)
